@@ -47,6 +47,9 @@ type xBlock struct {
 	Held     []xLock
 	Pos      string
 }
+type xLeak struct {
+	Fn, Lock, Pos string
+}
 type xAcquire struct {
 	Fn   string
 	Lock xLock
@@ -65,6 +68,7 @@ type extractor struct {
 	edges    []xEdge
 	blocks   []xBlock
 	acquires []xAcquire
+	leaks    []xLeak
 	escapes  map[string]string // function full name -> location it hands out
 	mutators map[string]bool   // methods (of non-tracked types) that modify their receiver
 	funcs    int
@@ -172,6 +176,20 @@ type fnWalk struct {
 	held  []xLock
 	alias map[types.Object]string
 	final bool // record results (last pass)
+	// locks whose release is deferred (they are let go when the function returns)
+	deferred map[string]int
+}
+
+// leakCheck: at a return (or the end of the body) every lock still held must have a deferred release
+func (w *fnWalk) leakCheck(n ast.Node) {
+	if !w.final {
+		return
+	}
+	for _, h := range w.held {
+		if w.deferred[h.Name] == 0 {
+			w.x.leaks = append(w.x.leaks, xLeak{Fn: w.fn, Lock: h.Name, Pos: w.pos(n)})
+		}
+	}
 }
 
 func copyHeld(h []xLock) []xLock { return append([]xLock(nil), h...) }
@@ -549,9 +567,16 @@ func (w *fnWalk) block(b *ast.BlockStmt) {
 // a branch is walked with a copy of the lock set; a branch that falls through leaves its lock set
 func (w *fnWalk) branch(b *ast.BlockStmt) (after []xLock, falls bool) {
 	saved := copyHeld(w.held)
+	savedDef := map[string]int{}
+	for k, v := range w.deferred {
+		savedDef[k] = v
+	}
 	w.block(b)
 	after = copyHeld(w.held)
 	w.held = saved
+	if terminates(b) {
+		w.deferred = savedDef // a deferred release inside a branch that returns belongs to that path
+	}
 	return after, !terminates(b)
 }
 
@@ -590,7 +615,8 @@ func (w *fnWalk) stmt(s ast.Stmt) {
 	case *ast.ExprStmt:
 		w.read(v.X)
 	case *ast.DeferStmt:
-		if _, acq, _, ok := w.mutexCall(v.Call); ok && !acq {
+		if l, acq, _, ok := w.mutexCall(v.Call); ok && !acq {
+			w.deferred[l]++
 			return // released when the function returns
 		}
 		if fl, ok := v.Call.Fun.(*ast.FuncLit); ok {
@@ -642,6 +668,7 @@ func (w *fnWalk) stmt(s ast.Stmt) {
 			}
 		}
 	case *ast.ReturnStmt:
+		defer w.leakCheck(v)
 		for _, r := range v.Results {
 			w.read(r)
 			if l, d, _, ok := w.classify(r); ok && d == 0 && !w.chainSkips(r) {
@@ -896,8 +923,11 @@ func runExtractor() (*extractor, error) {
 	for pass := 0; pass < 4; pass++ {
 		final := pass == 3
 		x.eachFunc(func(path string, info *types.Info, fd *ast.FuncDecl, name string) {
-			w := &fnWalk{x: x, info: info, fn: name, alias: map[types.Object]string{}, final: final}
+			w := &fnWalk{x: x, info: info, fn: name, alias: map[types.Object]string{}, final: final, deferred: map[string]int{}}
 			w.block(fd.Body)
+			if !terminates(fd.Body) {
+				w.leakCheck(fd.Body)
+			}
 			if final {
 				x.funcs++
 			}
@@ -954,6 +984,7 @@ func uncanon(s string) []xLock {
 }
 
 type xTable struct {
+	Leaks     []xLeak
 	Kinds     []string // kind id -> name
 	Rows      map[string][]xRow
 	Blocks    []xBRow
@@ -1025,7 +1056,7 @@ func buildTable(x *extractor) *xTable {
 			}
 		}
 	}
-	t := &xTable{Kinds: kinds, Rows: map[string][]xRow{}, Functions: x.funcs, Accesses: len(x.accesses)}
+	t := &xTable{Kinds: kinds, Rows: map[string][]xRow{}, Functions: x.funcs, Accesses: len(x.accesses), Leaks: x.leaks}
 	seen := map[string]bool{}
 	for _, a := range x.accesses {
 		loc := a.Loc
